@@ -438,7 +438,7 @@ def main(tier):
     I31 = 2 ** 31
     scales = sorted(set([0, 1, 2, 5, 18, 19, 20, 22, 23, 25, 38, 44, 100, 290, 308, 309, 323, 324, 325, 330, 400, 1000, -1, -2, -18, -19, -20, -22, -23, -25, -38, -100, -290, -307, -308, -309, -310, -400,
                          I31 - 39, I31 - 20, I31 - 2, I31 - 1, I31, I31 + 1, I31 + 18, I31 + 19, I31 + 20, I31 + 37, I31 + 38, I31 + 39, I31 + 57, -I31 + 1, -I31, -I31 - 1, -I31 - 20, 2 ** 40, -2 ** 40, 2 ** 62, -2 ** 62]
-                        + ([rng.randint(-400, 400) for _ in range(10)] if tier == 'quick' else list(range(-340, 341, 3)))))
+                        + ([rng.randint(-400, 400) for _ in range(10)] if tier == 'quick' else list(range(-340, 341, 7)))))
     for D in Ds:
         for sc in scales:
             tasks.append({'kind': 'to_f64', 'D': D, 'scale': sc, 'form': 'val' if (D + sc) % 2 == 0 or tier == 'quick' and False else 'ref', 'entry': 'to_f64'})
